@@ -42,6 +42,9 @@ def expr_of(v):
             return "float('nan')"
         if v in (float("inf"), float("-inf")):
             return "float('%s')" % ("inf" if v > 0 else "-inf")
+    import enum as _enum
+    if isinstance(v, _enum.Enum):
+        return f"{type(v).__name__}.{v.name}"       # (the classes of the vocabulary are in the namespace by name)
     return repr(v)
 
 
